@@ -342,7 +342,8 @@ def sessionDispatch (scopeType : String) : Nat :=
 def typeTable : List String :=
   ["websocket.accept", "websocket.send", "websocket.close", "websocket.connect",
    "websocket.receive", "websocket.disconnect", "websocket.bogus", "http.response.start",
-   "websocket.http.response.start", "http.response.body", "websocket", "http", "lifespan"]
+   "websocket.http.response.start", "http.response.body", "websocket", "http", "lifespan",
+   "websocket.http.response.body"]
 
 def typeOf (i : Nat) : String := (typeTable[i]?).getD "websocket.bogus"
 
